@@ -62,6 +62,16 @@ def unit_switch_rule(repo: Repo, rep: Report, rid: str) -> None:
             ok = equivalent(f, ref)
         rep.check(ok, rid, key, f"'{short(n.ast.test, 80)}' {'==' if exact else '>='} (exhausted or typechanged)",
                   f"unit-switch guard '{short(n.ast.test, 90)}' is not {'equivalent to' if exact else 'implied by'} (exhausted or type changed)", fi.loc(n.ast))
+        # the remembered type is refreshed whenever a unit is opened: a guard that compares with a type it never re-assigns goes stale after the
+        # first switch of storage type inside a run of bit-fields and then fires for every following field
+        tc = [c_ for c_ in ast.walk(n.ast.test) if isinstance(c_, ast.Compare) and len(c_.ops) == 1 and isinstance(c_.ops[0], ast.NotEq) and _unit_interp(c_) == "TYPECHANGED"]
+        if tc:
+            sides = {norm(tc[0].left), norm(tc[0].comparators[0])}
+            refreshed = any(isinstance(s2, ast.Assign) and norm(s2.targets[0]) in sides and norm(s2.value) in sides for b_ in n.ast.body for s2 in ast.walk(b_))
+            rep.check(refreshed, rid, f"{fi.key}:tracked-type-updated", "opening a unit records its storage type",
+                      f"'{short(tc[0], 50)}' compares with a remembered type that the guard's body never refreshes: after the first change of storage type "
+                      "inside a run of bit-fields every following bit-field looks like another change (uint16 x:4; uint8 a:2; uint8 b:2; counts a third unit), "
+                      "so the statically tracked offset runs ahead and a needed seek is left out", fi.loc(n.ast))
         # the type remembered for the open unit is the very value the next field is compared with
         for cmpx in ast.walk(n.ast.test):
             if isinstance(cmpx, ast.Compare) and len(cmpx.ops) == 1 and isinstance(cmpx.ops[0], ast.NotEq) and _unit_interp(cmpx) == "TYPECHANGED":
@@ -226,6 +236,10 @@ def signed_unit_rule(repo: Repo, rep: Report, rid: str) -> None:
     if fold is not None:
         bad = fold["range_bad"]
         rep.info["bitbuffer_write_fold_cases"] = fold["cases"]
+        ov = fold.get("overflow_bad", [])
+        rep.check(not ov, rid, f"{fi.key}:unit-overflow", "a unit whose accumulated pattern exceeds its width reaches the storage type out of range (so it is refused)",
+                  "a value too wide for the most significant bit-field pushes the pattern past the unit, and BitBuffer.flush wraps it back into the storage "
+                  f"type's range instead of letting the type refuse it: (endian, size, signed, style, field values, value handed on) = {ov[0] if ov else ''}", fi.loc())
         rep.check(not bad, rid, f"{fi.key}:unit-write",
                   f"write/flush folded over {fold['cases']} (bit order, unit size, signedness style, width sequence, pattern) cases: the value handed to the "
                   "storage type's _write always lies in that type's range",
